@@ -6,19 +6,20 @@ statement (outputs sum to the input, extraction <= demand and availability, outf
 sum / linear maps, total = quick + slow, zero driver => zero load, linearity with the mg/L -> kg/m3 factor)
 as invariants over every case of the grid (zero, negative demand, table end points) and emits the expected
 outputs; the engine runs each case through the catalogue and compares within a few ulp.
-Not covered (real exponents): BankErosion, USLEFineSedimentGeneration, DynamicSednetGully(Alt),
-SednetParticulateNutrientGeneration.
+The five generators with power-law terms (BankErosion, USLEFineSedimentGeneration, DynamicSednetGully(Alt),
+SednetParticulateNutrientGeneration) are covered for INTEGER power factors (and day-of-year 15, where USLE's
+seasonal cosine is exactly 1): their kernels are then rational too and are transcribed the same way.
 """
 from .. import exact
 
 
 def run(ctx):
-    cfg = "ExactModels.cfg" if ctx.quick else "ExactModels_t.cfg"
-    cases = exact.tlc_cases(ctx, "ExactModels", cfg, timeout=2400)
-    s = exact.run_exact(ctx, cases, ["exact"], "exact-models")
-    if s:
-        for m in s["mismatches"]:
-            ctx.report({"kind": m["kind"], "model": m["model"]}, "%s: %s | case %s" % (m["model"], m["detail"], str(m["case"].get("exact"))[:300]), m)
-    ctx.assumptions += ["claimed for the 15 models with rational kernels; the five pow()-based generators are not covered (DESIGN.md section 10)",
+    for cfg, label in (("ExactModels.cfg" if ctx.quick else "ExactModels_t.cfg", "exact-models"), ("ExactGenerators.cfg", "exact-generators")):
+        cases = exact.tlc_cases(ctx, "ExactModels", cfg, timeout=2400)
+        s = exact.run_exact(ctx, cases, ["exact"], label)
+        if s:
+            for m in s["mismatches"]:
+                ctx.report({"kind": m["kind"], "model": m["model"]}, "%s: %s | case %s" % (m["model"], m["detail"], str(m["case"].get("exact"))[:300]), m)
+    ctx.assumptions += ["power-law generators: integer power factors only (exact rational transcription); fractional exponents are not explored",
                         "comparison tolerance 1e-14 relative (unit factors such as 1e-3 are not dyadic)"]
     return ctx.finish("model_checking")
